@@ -22,10 +22,8 @@ Proof. exact magic_to_dict_join. Qed.
 Print Assumptions notations_equivalent_magic_to_dict.
 
 (* ... and the hypothesis holds for every property name of every generated schema *)
-Theorem schema_keys_separator_free :
-  forall cs n, In cs (("defaults", defaults_schema) :: style_classes) -> In n (all_names (snd cs)) ->
-               has_char us n = false.
-Proof. exact separator_free_forall. Qed.
+Theorem schema_keys_separator_free : separator_free = true.
+Proof. exact separator_free_ok. Qed.
 Print Assumptions schema_keys_separator_free.
 
 (* last assignment wins in update_nested_dict, whatever the dictionary was before (any history) *)
@@ -43,39 +41,44 @@ Theorem precedence_merge_keeps_own_value :
 Proof. exact und_fill_keeps. Qed.
 Print Assumptions precedence_merge_keeps_own_value.
 
-(* ---- schema-wide, by computation over GenStyle ---- *)
+(* ---- schema-wide, by computation over GenStyle ----
+   Each *_all is a closed boolean term of Model/StyleSpec.v: nested `forallb` over EVERY style class (or public
+   object class), EVERY leaf of its generated schema, the sample values of the leaf's validator kind, EVERY
+   notation (attribute assignment, underscore keyword and nested dictionary passed to update() at every depth)
+   and EVERY combination of sources; the only exclusions are written in the term (`shadowed`: the leaf an alias
+   property writes to; for reset: leaves the DEFAULTS literal does not mention). *)
 
-Theorem last_assignment_wins_and_notations_equivalent_partial :
-  forall cs p k al v1 v2 n1 n2,
-    In cs style_classes -> In (p, k, al) (sleaves (snd cs)) -> shadowed (snd cs) p = false ->
-    In v1 (two k) -> In v2 (two k) -> In n1 (notations p) -> In n2 (notations p) ->
-    lw_holds (snd cs) p v1 v2 n1 n2 = true.
-Proof. exact lw_forall. Qed.
+(* lw_all: for every style class, every non-shadowed leaf, values v1 v2, notations n1 n2:
+   set v1 by n1, then v2 by n2  ==  set v2 alone by attribute assignment (whole as_dict() equal, leaf = v2) *)
+Theorem last_assignment_wins_and_notations_equivalent_partial : lw_all = true.
+Proof. exact lw_all_ok. Qed.
 Print Assumptions last_assignment_wins_and_notations_equivalent_partial.
 
-(* without the exclusion of alias-shadowed leaves the clause is false in the faithful model *)
+(* on the alias-shadowed leaf the clause is false in the faithful model *)
 Theorem last_assignment_wins_refuted :
-  ~ (forall cs p k al v1 v2 n1 n2,
-       In cs style_classes -> In (p, k, al) (sleaves (snd cs)) ->
-       In v1 (two k) -> In v2 (two k) -> In n1 (notations p) -> In n2 (notations p) ->
-       lw_holds (snd cs) p v1 v2 n1 n2 = true).
-Proof. exact lw_unrestricted_false. Qed.
+  In ("MagnetStyle", schema_MagnetStyle) style_classes /\
+  In (p_asize, KNumGe0, false) (sleaves schema_MagnetStyle) /\
+  In (VInt 2) (two KNumGe0) /\ In (VFlt 1 2) (two KNumGe0) /\
+  In NAttr (notations p_asize) /\ In (NUnder 0) (notations p_asize) /\
+  lw_holds schema_MagnetStyle p_asize (VInt 2) (VFlt 1 2) NAttr (NUnder 0) = false /\
+  leaf_is schema_MagnetStyle
+       (fst (set_leaf schema_MagnetStyle
+               (fst (set_leaf schema_MagnetStyle (fresh_state schema_MagnetStyle) p_asize (Some (VInt 2)) NAttr))
+               p_asize (Some (VFlt 1 2)) (NUnder 0)))
+       p_asize (Some (VInt 2)) = true.
+Proof. exact lw_alias_witness. Qed.
 Print Assumptions last_assignment_wins_refuted.
 
-Theorem invalid_names_and_values_rejected_partial :
-  forall cs p k al n,
-    In cs style_classes -> In (p, k, al) (sleaves (snd cs)) -> In n (notations p) ->
-    rejects_name (snd cs) p n = true /\
-    forall v, In v (bad_vals k) -> rejects_value (snd cs) p v n = true.
-Proof. exact reject_forall. Qed.
+(* reject_all: every leaf, every notation: an unknown name gives the name error, every invalid sample value an error *)
+Theorem invalid_names_and_values_rejected_partial : reject_all = true.
+Proof. exact reject_all_ok. Qed.
 Print Assumptions invalid_names_and_values_rejected_partial.
 
-Theorem precedence_partial :
-  forall cls p k src nested n,
-    In cls public_classes -> In (p, k, false) (sleaves (class_schema cls)) -> prec_leaf k p = true ->
-    shadowed (class_schema cls) p = false -> In src all_sources -> In (nested, n) prec_variants ->
-    prec_holds cls p (sv k 0) (sv k 1) (sv k 2) (sv k 3) src nested n = true.
-Proof. exact prec_forall. Qed.
+(* prec_all: every public object class, every clearable non-alias non-shadowed leaf that show() accepts, all 16
+   combinations of present/absent sources, two notations: resolved = first non-None of
+   (show keyword, object's own value, family default, base default) *)
+Theorem precedence_partial : prec_all = true.
+Proof. exact prec_all_ok. Qed.
 Print Assumptions precedence_partial.
 
 Theorem precedence_refuted :
@@ -84,25 +87,28 @@ Theorem precedence_refuted :
 Proof. exact prec_alias_witness. Qed.
 Print Assumptions precedence_refuted.
 
-Theorem fresh_settings_hold_the_literal_defaults :
-  forall p k al, In (p, k, al) (sleaves defaults_schema) -> literal_holds p k = true.
-Proof. exact literal_forall. Qed.
+(* every leaf of the DEFAULTS literal is what freshly built settings hold (after its validator) *)
+Theorem fresh_settings_hold_the_literal_defaults : literal_all = true.
+Proof. exact literal_all_ok. Qed.
 Print Assumptions fresh_settings_hold_the_literal_defaults.
 
-Theorem reset_restores_partial :
-  forall p k al v n,
-    In (p, k, al) (sleaves defaults_schema) -> in_literal p = true -> shadowed defaults_schema p = false ->
-    In v (two k) -> In n (notations_coarse p) -> reset_holds p v n = true.
-Proof. exact reset_forall. Qed.
+(* reset_all: every settings leaf that the DEFAULTS literal mentions and no alias shadows: change it (any
+   notation), reset() -> the whole settings tree is the pristine one *)
+Theorem reset_restores_partial : reset_all = true.
+Proof. exact reset_all_ok. Qed.
 Print Assumptions reset_restores_partial.
 
-(* reset() restores NO leaf that the DEFAULTS literal does not mention ... *)
-Theorem reset_outside_literal_refuted :
-  forall p k al v,
-    In (p, k, al) (sleaves defaults_schema) -> in_literal p = false -> In v (two k) ->
-    reset_holds p v NAttr = false.
-Proof. exact reset_outside_forall. Qed.
+(* reset() restores NO leaf that the DEFAULTS literal does not mention (every such leaf, every sample value
+   different from the pristine one) ... *)
+Theorem reset_outside_literal_refuted : reset_none_outside = true.
+Proof. exact reset_none_outside_ok. Qed.
 Print Assumptions reset_outside_literal_refuted.
+
+Theorem reset_outside_literal_witness_refuted :
+  In (p_label, KToStr, false) (sleaves defaults_schema) /\ in_literal p_label = false /\
+  reset_holds p_label (VStr "lbl") NAttr = false.
+Proof. exact reset_outside_witness. Qed.
+Print Assumptions reset_outside_literal_witness_refuted.
 
 (* ... and not the alias-shadowed arrow size either *)
 Theorem reset_alias_refuted :
@@ -111,19 +117,24 @@ Theorem reset_alias_refuted :
 Proof. exact reset_alias_witness. Qed.
 Print Assumptions reset_alias_refuted.
 
-Theorem constructors_forward_style :
-  forall cls ok why, In (cls, (ok, why)) ctor_style -> ok = true.
-Proof. exact ctor_forall. Qed.
+(* every public constructor hands `style` to BaseGeo.__init__'s style parameter *)
+Theorem constructors_forward_style : ctor_forwards_style = true.
+Proof. exact ctor_ok. Qed.
 Print Assumptions constructors_forward_style.
 
-(* non-vacuity: the quantifiers above range over non-empty sets, and the hypotheses are satisfiable *)
+Theorem defaults_are_valid : snd (defaults_new colors defaults_schema DEFAULTS) = None.
+Proof. exact defaults_build_ok. Qed.
+Print Assumptions defaults_are_valid.
+
+(* non-vacuity: the quantifiers inside the *_all terms range over non-empty sets *)
 Example c20_nonvacuous :
-  List.length style_classes = 8 /\ List.length (sleaves defaults_schema) = 158 /\
-  List.length (sleaves schema_MagnetStyle) = 33 /\
-  shadowed schema_MagnetStyle ["magnetization"; "arrow"; "color"] = false /\
-  In NAttr (notations ["magnetization"; "arrow"; "color"]) /\
-  two KColor = [VStr "red"; VStr "blue"] /\
-  List.length all_sources = 16 /\ List.length public_classes = 16 /\
-  reset_outside_literal_witness_exists = true.
+  (exists cs p k al, In cs style_classes /\ In (p, k, al) (sleaves (snd cs)) /\ shadowed (snd cs) p = false /\
+                     two k <> [] /\ notations p <> [] /\ bad_vals k <> []) /\
+  (exists p k al, In (p, k, al) (sleaves defaults_schema) /\ in_literal p = true /\
+                  shadowed defaults_schema p = false /\ two k <> [] /\ notations_coarse p <> []) /\
+  (exists p k al, In (p, k, al) (sleaves defaults_schema) /\ in_literal p = false /\ two k <> []) /\
+  (exists cls p k, In cls public_classes /\ In (p, k, false) (sleaves (class_schema cls)) /\
+                   prec_leaf k p = true /\ shadowed (class_schema cls) p = false) /\
+  all_sources <> [] /\ prec_variants <> [] /\ ctor_style <> [].
 Proof. exact c20_nonvacuous_proof. Qed.
 Print Assumptions c20_nonvacuous.
